@@ -125,6 +125,11 @@ def end_to_end(scope, na, nb):
     elif scope == "cell":
         work.create_definition(name=na)
         work.create_definition(name=nb)
+    elif scope == "cell-first-library":
+        # the colliding cells live in a library that is not the last one written
+        prim.create_definition(name=na)
+        prim.create_definition(name=nb)
+        top.create_child(name="u", reference=leaf)
     elif scope == "port":
         top.create_port(name=na, direction=s.IN, pins=1)
         top.create_port(name=nb, direction=s.OUT, pins=1)
@@ -232,6 +237,8 @@ def cases(tier):
     for na, nb in (("D", "d"), ("d", "D"), ("aB", "Ab"), ("x1", "X1"), ("a-b", "A-b")):
         out.append(("e2e", "port-cross-scope", na, nb, "asc"))
         out.append(("e2e", "net-cross-scope", na, nb, "asc"))
+    for na, nb in (("D", "d"), ("d", "D"), ("aB", "Ab"), ("a-b", "a_b"), ("a_b", "a-b"), ("x/y", "x_y"), ("A" * 256, "a" * 256)):
+        out.append(("e2e", "cell-first-library", na, nb, "asc"))
     for nm in e2e_names:
         out.append(("e2e", "top-instance", nm, "b", "asc"))
         out.append(("e2e", "netlist", nm, "b", "asc"))
